@@ -1,10 +1,10 @@
 #!/bin/bash
 # tools/confirm_seed.sh <Cnn> <k> : confirm a sub-agent's change m<k> for property Cnn in its scratch worktree
-# (/tmp/seed3/Cnn/wt), then store it as /verif/seeded/Cnn-m<k>/{patch.diff,demo_test.go,demonstration.txt,meta.json}
+# (${SEED_ROOT:-/tmp/seed3}/Cnn/wt), then store it as /verif/seeded/Cnn-m<k>/{patch.diff,demo_test.go,demonstration.txt,meta.json}
 set -u
 export GOFLAGS=-mod=mod GOPROXY=off GOSUMDB=off GOTOOLCHAIN=local
 ID=$1; K=$2
-S=/tmp/seed3/$ID; WT=$S/wt; OUT=$S/out
+S=${SEED_ROOT:-/tmp/seed3}/$ID; WT=$S/wt; OUT=$S/out
 V=/verif/seeded/$ID-${SEED_TAG:-}m$K
 [ -f $OUT/m$K.diff ] || { echo "no such change"; exit 2; }
 cd $WT && git checkout -q -- . && git clean -fdq
